@@ -13,5 +13,5 @@ CONFIG = dict(
           "one block of the new epoch (numbering from frame 1 and reset-equivalence exercised with a changed set); distinct by scenario hash. "
           "Class sealing_event_would_decide_further_frames counts seals where voting would go on without the stop-once-sealed rule (rare: needs a late-round decision)."),
     assumptions=["forking validators hold < 1/3 of the weight", "events of the sealed epoch are not fed afterwards"],
-    units=[dict(test="TestC09Sealing", quick=500, thorough=120000, shards=16)],
+    units=[dict(test="TestC09Sealing", quick=1500, thorough=120000, shards=16)],
 )
